@@ -11,6 +11,9 @@ def run(ctx):
     try:
         from .. import lemmas_stage2
         ls += lemmas_stage2.p3_lemmas(ctx.tier, wf_only=True)
+        # root pairs of newline-delimited input (a closing root points back to ITS opening root) need at least two documents:
+        # the ndjson skeletons (5-11 tokens) assert refWF on every accepting path
+        ls += lemmas_stage2.p3_skeleton_lemmas(ctx.tier, ndjson=(1,))
     except ImportError:
         ctx.assume("parser side (tape of an accepted document is well-formed) pending: only the Deserialize side is decided in this run")
     # which buffer a string entry names is the documented function of the string mode; that the mode is the one this call's
